@@ -111,12 +111,26 @@ def run_matrix(ctx, label, types, eqs, features, extra_deps, tgt):
     return n
 
 
+def astro_dir():
+    """Directory of the workspace member whose package is named astronomical-quantities (found through the
+    manifests, not by its directory name)."""
+    import glob
+    import re
+    for m in sorted(glob.glob(os.path.join(facts.REPO, "*", "Cargo.toml"))):
+        try:
+            if re.search(r'^\s*name\s*=\s*"astronomical-quantities"', open(m).read(), re.M):
+                return os.path.dirname(m)
+        except OSError:
+            pass
+    return os.path.join(facts.REPO, "astronimical_quantities")
+
+
 def run(ctx):
     eqs = json.load(open(os.path.join(oracle.ODIR, "derivations.json")))
     n = 0
     n += run_matrix(ctx, "f64", CATALOGUE, [tuple(e) for e in eqs["quantities"]], ["doc"], "", "witness-c06-f64")
     n += run_matrix(ctx, "dec", CATALOGUE, [tuple(e) for e in eqs["quantities"]], ["doc", "fpdec"], "", "witness-c06-dec")
-    astro_dep = 'astronomical-quantities = { path = "%s" }\n' % os.path.join(facts.REPO, "astronimical_quantities")
+    astro_dep = 'astronomical-quantities = { path = "%s" }\n' % astro_dir()
     n += run_matrix(ctx, "astro", ASTRO, [tuple(e) for e in eqs["astronomical_quantities"]], [], astro_dep, "witness-c06-astro")
     ctx.floor("matrix programs judged by rustc", n, 1350 + 1350 + 150)
     g = run_graphs(ctx)
